@@ -90,9 +90,27 @@ TStep ==
        LET pos == PosSeq(c) IN
        \A p \in 1..Len(tr.obs) : LET o == tr.obs[p] m == BpchOpenZ(pos, Len(c.tr), o.n) IN
          /\ ChkT(tr, p, "reader did not terminate on the prefix of " \o ToString(o.n) \o " bytes", o.k # "Hang")
-         /\ Chk(tr, p, "prefix of " \o ToString(o.n) \o " bytes: outcome differs from the reader model (steps, tracers)",
-                IF o.k = "Steps" THEN <<o.got.dims.time, NFound(o.got)>> ELSE <<-1, 0>>,
-                IF m.k = "Steps" THEN <<m.n, m.K>> ELSE <<-1, 0>>)
+         \* the transcribed decision procedure binds the model to bpch1: the reader may
+         \* be stricter than the model (an error, or fewer blocks, where the model exposes
+         \* blocks - the property allows both, reported as a NOTE), never more generous
+         /\ LET obs == IF o.k = "Steps" THEN <<o.got.dims.time, NFound(o.got)>> ELSE <<-1, 0>>
+                mod == IF m.k = "Steps" THEN <<m.n, m.K>> ELSE <<-1, 0>>
+                full == o.n = tr.nbytes
+            IN IF obs = mod THEN TRUE
+               ELSE IF ~full /\ (obs = <<-1, 0>> \/ (mod[1] >= 0 /\ obs[2] = mod[2] /\ obs[1] >= 0 /\ obs[1] < mod[1]))
+               THEN Say([v |-> "NOTE", tid |-> tr.tid, l |-> p, what |-> "bpch1 is stricter than its model on this prefix", n |-> o.n, got |-> obs, model |-> mod])
+               ELSE Chk(tr, p, "prefix of " \o ToString(o.n) \o " bytes: bpch1 exposes more than its decision procedure (steps, tracers)", obs, mod)
+         \* the public reader (bpch1, else the block-walking reader): property clauses only
+         /\ ChkT(tr, p, "public reader did not terminate on the prefix of " \o ToString(o.n) \o " bytes", o.wk # "Hang")
+         /\ (o.wk = "Steps" =>
+               IF NFound(o.wgot) < Len(c.tr)
+               THEN (IF m.k = "Steps" /\ m.K < Len(c.tr) /\ NFound(o.wgot) = m.K
+                     THEN TrKnown(tr, "C14_K3_bpch_partial_first_block")
+                     ELSE ChkT(tr, p, "public reader, prefix of " \o ToString(o.n) \o " bytes: a file with fewer tracers is presented", FALSE))
+               ELSE /\ ChkT(tr, p, "public reader, prefix of " \o ToString(o.n) \o " bytes: more blocks exposed than are complete",
+                            o.wgot.dims.time <= CompleteBlocks(c, o.n))
+                    /\ ChkS(tr, p, "public reader, prefix of " \o ToString(o.n) \o " bytes: exposed blocks differ from the full file",
+                            PrefixDiag(c, o.wgot, o.wgot.dims.time)))
          /\ (o.k = "Steps" =>
                IF NFound(o.got) < Len(c.tr)
                THEN TrKnown(tr, "C14_K3_bpch_partial_first_block")
